@@ -759,8 +759,7 @@ class NDNApp:
             For example, manually or by the other side.
         """
         async def starting_task():
-            # (a copy: a route declared while these registrations are on their way registers itself)
-            for name in list(self._autoreg_routes):
+            for name in declared_routes:
                 await self.register(name)
             if after_start:
                 try:
@@ -778,6 +777,9 @@ class NDNApp:
                 elif isinstance(after_start, (aio.Task, aio.Future)):
                     after_start.cancel()
             raise
+        # The routes declared up to now - a copy taken the moment the face is up: from here on route() registers a
+        # new route itself, also while the start-up registrations are on their way or have not begun yet
+        declared_routes = list(self._autoreg_routes)
         task = aio.create_task(starting_task())
         self.logger.debug('Connected to NFD node, start running...')
         try:
